@@ -841,25 +841,31 @@ def rule_t7b(prog, rep, rid='T7'):
                           'takes every node for visited' % (f.name, hit[0].name))
 
 
-def rule_t8(prog, rep, rid='T8'):
+def rule_t8(prog, rep, rid='T8', units=None, any_size=False):
     """A value copy may legitimately be NULL (empty value): a NULL copy counts as an allocation failure only together with a
     non-empty source."""
     rep.rule(rid, 'a NULL value copy is treated as an allocation failure only when the source value is non-empty')
-    for f in sorted(prog.funcs_in(UNIT), key=lambda x: x.line or 0):
+    fs = []
+    for u in (units or [UNIT]):
+        prog.unit(u)
+        fs += list(prog.funcs_in(u))
+    for f in sorted(fs, key=lambda x: (x.relfile, x.line or 0)):
+        if f.body is None:
+            continue
         copies = {}
         for x in walk(f.body):
             if x.get('kind') == 'BinaryOperator' and x.get('opcode') == '=':
                 r = strip(children(x)[1])
                 if r.get('kind') == 'CallExpr' and prog.callee_name(r) == 'qmemdup':
                     a = children(r)[1:]
-                    if len(a) >= 2 and canon(a[1]).endswith('datasize'):
+                    if len(a) >= 2 and (any_size or canon(a[1]).endswith('datasize')):
                         copies[canon(children(x)[0])] = (canon(a[0]), canon(a[1]))
             elif x.get('kind') == 'VarDecl':
                 from .expr import var_init
                 init = var_init(x)
                 if init is not None and strip(init).get('kind') == 'CallExpr' and prog.callee_name(strip(init)) == 'qmemdup':
                     a = children(strip(init))[1:]
-                    if len(a) >= 2 and canon(a[1]).endswith('datasize'):
+                    if len(a) >= 2 and (any_size or canon(a[1]).endswith('datasize')):
                         copies[x.get('name')] = (canon(a[0]), canon(a[1]))
         for dst, (src, size) in sorted(copies.items()):
             # conditions null-testing dst whose null branch reaches `errno = ENOMEM` without testing the source
@@ -961,3 +967,47 @@ def rule_fixup_bypass(prog, rep, rid='A5'):
                               '%s can return at line %s after a recursive descent without evaluating the way-up fix-up at line %s (%s): '
                               'the way down may already have restructured the subtree, so the tree is left invalid on that path'
                               % (f.name, line, x.get('_line'), canon(children(x)[0])[:50]))
+
+
+def rule_t10(prog, rep, rid='T10'):
+    """The walker's visited mark.  A node is stamped with the traversal id (`X->tid = <id>`) only when it is delivered: from
+    the stamp no failing return (`return false`, e.g. the allocation-failure exit of the copying mode) is reachable before
+    the walker returns success or goes round its loop again.  A node stamped and then not delivered is skipped by the
+    caller's retry and by every continuation of the same walk."""
+    rep.rule(rid, 'a node is stamped as visited only on paths that deliver it: no failing return is reachable from the stamp')
+    for f in sorted(prog.funcs_in(UNIT), key=lambda x: x.line or 0):
+        if f.body is None:
+            continue
+        cfg = f.cfg
+        heads = {h.id for (h, _s) in cfg.loops}
+        for n in cfg.nodes:
+            if n.id not in cfg.reachable or not isinstance(n.ast, dict) or n.kind == 'macro':
+                continue
+            for x in walk(n.ast):
+                if not (x.get('kind') == 'BinaryOperator' and x.get('opcode') == '='):
+                    continue
+                l = strip(children(x)[0])
+                if not (l.get('kind') == 'MemberExpr' and l.get('name') == 'tid' and l.get('isArrow') and (l.get('_field') or ('',))[0] == NODE):
+                    continue
+                b = strip(children(l)[0])
+                if b.get('kind') != 'DeclRefExpr' or (b.get('_ref') or ('',))[0] != 'local':
+                    continue        # the caller's cursor object (a parameter) is not a node of the tree
+                rep.instance(rid)
+                bad = None
+                seen, work = set(), [s for (s, _l) in n.succs]
+                while work and bad is None:
+                    m = work.pop()
+                    if m.id in seen or m.id in heads or m is cfg.exit:
+                        continue
+                    seen.add(m.id)
+                    if m.kind == 'act' and isinstance(m.ast, dict) and m.ast.get('kind') == 'ReturnStmt' and children(m.ast) \
+                            and int_value(children(m.ast)[0]) == 0:
+                        bad = m
+                        break
+                    work += [s for (s, _l) in m.succs]
+                rep.oblige(rid, bad is None, {'function': f.name, 'stamp': canon(x), 'line': x.get('_line')})
+                if bad is not None:
+                    rep.violation(rid, f, x.get('_line'), 'stamp:%s' % canon(l),
+                                  '%s stamps a node as visited (%s, line %s) and can then still fail (return at line %s): the node is '
+                                  'never delivered - the caller\'s retry and every continuation of the walk skip that key'
+                                  % (f.name, canon(x), x.get('_line'), bad.line))
